@@ -339,3 +339,10 @@ void verif_dcas_after(volatile void* location, int result) {
   push_ev(rt_tid, dcas_loc + 1, k, rt_canon(p[1]));
   dcas_loc = -1;
 }
+
+/* protocol-event hooks (src/fiber_manager.c, fiber.c, fiber_scheduler_wsd.c):
+ * default = ignored; the T2 adapter (rt/t2.c) overrides them */
+__attribute__((weak)) void verif_event(int kind, const volatile void* a, const volatile void* b) {
+  (void)kind; (void)a; (void)b;
+}
+__attribute__((weak)) int verif_quarantine(void* block) { (void)block; return 0; }
